@@ -227,6 +227,7 @@ def check(run: Run) -> None:
     run.rule("C07.R3", "persistence: every return of get_next is preceded by a NEXTIDS write of the map holding the successor; the map is re-read from disk on every call")
     run.rule("C07.R4", "shape agreement: every YYMMDD#A{2,3} is one ZID token in both lexers and is accepted by is_zid")
     run.rule("C07.R5", "use: enterId decides 'own ZID' through is_zid; _add_zids is the only caller of get_next")
+    run.rule("C07.R6", "the allocated ZID reaches the file on the note's own first line (write-back conservation of C05.R3, adopted): otherwise the note is not recognised as its owner when the page is compiled again")
 
     def strptime_hook(I, recv, name, args, kwargs, st, node):
         if name == "strptime" and not st.meta.get("dates_valid"):
@@ -331,6 +332,9 @@ def check(run: Run) -> None:
     eff = Effects(model)
     cls = model.cls(f"{ZM}.ZIDManager")
     persistence_scenarios(run, model, "C07.R3", order)
+    from ..indexscen import nextids_untouched
+
+    nextids_untouched(run, model, "C07.R3")
     # the map comes from disk on every call: the property reads NEXTIDS, and any attribute its
     # decision depends on is never assigned outside __init__
     loaders = [m for m in cls.methods.values() if m.name != "__init__" and any(isinstance(n, ast.Call) and isinstance(n.func, ast.Attribute) and n.func.attr in ("read_text", "read_bytes", "load", "loads") for n in walk_no_nested(m.node))]
@@ -390,6 +394,12 @@ def check(run: Run) -> None:
 
     short_date_recogniser_agrees(run, model, "C07.R4")
     is_zid_accepts_allocated(run, model, "C07.R4", A, strptime_hook)
+    # ------------------------------------------------------------- R6
+    from ..indexing import writeback_conservation
+
+    sub5 = Run("C05", run.tier, run.repo)
+    writeback_conservation(sub5, model, "C05.R3")
+    run.floor("adopted write-back obligations", run.adopt(sub5, ("C05.R3",), "C07.R6"), 6)
     # ------------------------------------------------------------- R5
     enter_id = model.func("zorg.service.compiler._file_compiler.ZorgFileCompiler.enterId")
     uses = [c for c, t in model.calls_in(enter_id) if t == F_ISZID]
